@@ -27,6 +27,14 @@ when it existed before and exists after, never a third value), records the call
 does not touch must be unchanged, own identity unchanged, aggregate loads
 consistent with the recovered records.
 
+Reporting.  A history is reported only when none of its proper prefixes (all of them enumerated histories) already
+leaves the live store in disagreement with the model; per signature the shortest history is kept, independent of
+VERIF_SEED.  Signatures name the call site: `crash-lost:<call>` (record existed before, exists after, missing at a
+crash point inside <call>), `crash-neither` / `crash-collateral` / `crash-aggregate` / `crash-unrecoverable:<call>`,
+`idle-crash-loses:<last writer>` (image taken before the call's first statement already lacks what earlier calls
+stored), `reopen:<last writer>:<record kind>` (lost or changed by close + open), `state:<call>:<record kind|load>`
+(live store wrong right after <call>), `result:<reader>` / `raises:<call>`.
+
 Re-storing a one-time / signed prekey id that is still present: the model allows
 either "refused with sqlite3.IntegrityError, nothing changed" (what the pinned
 code does) or "replaced" - both are all-or-nothing; the encryption layer only
@@ -1015,14 +1023,9 @@ def closure_bfs(fam_name):
     build_values()
     fam = families()[fam_name]
     alpha = fam.alphabet(True) + [REOPEN]
-    cache = {}
 
     def build(hist):
-        key = repr(hist)
-        if key not in cache:
-            cache.clear()
-            cache[key] = run_history(fam_name, hist, crash=False)
-        return cache[key]
+        return run_history(fam_name, hist, crash=False)
 
     def enabled(st, hist):
         return alpha
